@@ -168,13 +168,13 @@ type hrev struct {
 
 type hworld struct {
 	*world
-	cache   *memCache
-	revs    map[string]*hrev // generated revisions by name (created or not yet)
-	order   map[string][]string
-	secret  map[string]string // package -> "ok" | "none"
-	reject  *verifsim.Key
-	hist    []string
-	limit   int
+	cache                        *memCache
+	revs                         map[string]*hrev // generated revisions by name (created or not yet)
+	order                        map[string][]string
+	secret                       map[string]string // package -> "ok" | "none"
+	reject                       *verifsim.Key
+	hist                         []string
+	limit                        int
 	tookOver, refusals, upgrades int
 }
 
